@@ -191,8 +191,7 @@ def classify(res):
 
 def run(ctx):
     cov = ctx.coverage
-    if not m.regen_tables(ctx):
-        return
+    m.regen_tables(ctx)      # on failure (reported as a broken tie) go on with the tables of the last good run: the oracle below finds the input
     ok, log = ctx.prove(MODULE, ["drv_c05"])
     broken = []
     if not ok:
